@@ -186,9 +186,25 @@ def do_replay(prop: str, path: str) -> int:
         from .props import gateway as gprops
         gprops.replay_c10_restored(case)
         return 0
+    if "c08_sessions" in case:
+        # real `async with gateway:` statements around an interrupted release (C08): re-executed on the implementation
+        import asyncio
+
+        from .props import gateway as gprops
+        sc = case["c08_sessions"]
+        for k, v in sc.items():
+            print(f"{k}: {v!r}")
+        what, trace = asyncio.run(gprops.c08_session_case(sc))
+        for t in trace:
+            print("  ", t)
+        print("reproduced:" if what else "NOT reproduced", what or "")
+        return 0
     if "history" in case:
         from . import gw
         h = gw.Hist.from_json(case["history"])
+        if gw.has_file(h):
+            print("(the gateway has a persistence file: ('session', 'file') leaves the context and enters the same object again, "
+                  "which reloads the registry from the file)")
         impl = gw.run_impl(h)
         try:
             outs = lib.run_model(gw.model_lines(h))
@@ -219,6 +235,14 @@ def do_replay(prop: str, path: str) -> int:
                 print(f"reproduced: {bad[0]} (step {len(bad[1]['history']['ops'])}, writes {bad[1]['writes']})")
             else:
                 print("NOT reproduced: the oracle has no objection to this history on this library")
+        if prop == "C08":
+            from .props import gateway as gprops
+            verdict = lib.Corr("C08", "replay")
+            gprops._c08_oracle(verdict, h, impl)
+            for v in verdict.violations:
+                print("reproduced:", v["what"], {k: v[k] for k in ("line", "still_owed_to_the_node", "before", "after+written") if k in v})
+            if not verdict.violations:
+                print("NOT reproduced: C08's oracle finds nothing wrong on this run")
         return 0
     if "sessions" in case:
         # gateway sessions on one persistence file (C05): re-executed on the implementation
